@@ -97,12 +97,18 @@ def newSDt (p : AddP) (parentAlive : Bool) : SDt :=
 
 def SpecSt.find (sp : SpecSt) (id : Nat) : Option SDt := sp.dts.find? (fun d => d.id == id)
 
+/-- The named trigger downtime is known and still exists. -/
+def parentAliveS (l : List SDt) (i : Nat) : Bool :=
+  match l.find? (fun d => d.id == i) with
+  | some q => q.alive
+  | none => false
+
 /-- Downtimes known before the operation, extended by the one an accepted `add` creates. -/
 def preDts (sp : SpecSt) (op : Op) (o : Obs) : List SDt :=
   match op with
   | .add p _ =>
     if o.rc == 1 then
-      sp.dts ++ [newSDt p (p.trigBy != 0 && (match sp.find p.trigBy with | some q => q.alive | none => false))]
+      sp.dts ++ [newSDt p (p.trigBy != 0 && parentAliveS sp.dts p.trigBy)]
     else sp.dts
   | _ => sp.dts
 
